@@ -62,6 +62,98 @@ def term_everywhere(chk, base_seed, positions, accept, nread):
     return recs
 
 
+def agent_level(chk):
+    ''' tcpcl.agent.Agent with several contacts: shutdown()/stop() must reach every
+    session whatever the order of pre-session and established contacts. '''
+    import itertools
+    import dbus
+    from gi.repository import GLib
+    import tcpcl.agent
+    import tcpcl.config
+    from tcpcl_drive import FakeSock
+    fails = []
+    ncases = 0
+    patterns = [p for n in (1, 2, 3) for p in itertools.product('EP', repeat=n)]  # E established, P pre-session
+    for pattern in patterns:
+        for action in ('shutdown', 'stop'):
+            GLib.CTX.reset()
+            del dbus.service.EVENT_LOG[:]
+            bus = dbus.bus.BusConnection()
+            cfgs = []
+            agents = []
+            for name in ('a', 'b'):
+                cfg = tcpcl.config.Config(tls_enable=False, node_id='dtn://%s/' % name)
+                cfg._bus_conn = bus
+                cfgs.append(cfg)
+                agents.append(tcpcl.agent.Agent(cfg, bus_kwargs=dict(conn=bus, object_path='/ag' + name)))
+            stopped = []
+            agents[0].set_on_stop(lambda: stopped.append(True))
+            pairs = []
+            for (idx, kind) in enumerate(pattern):
+                sa = FakeSock('a%d' % idx, ('10.0.0.1', 40000 + idx))
+                sb = FakeSock('b%d' % idx, ('10.0.0.2', 4556))
+                sa.peer = sb
+                sb.peer = sa
+                ha = agents[0]._bind_handler(config=cfgs[0], sock=sa, toaddr=('10.0.0.2', 4556))
+                hb = agents[1]._bind_handler(config=cfgs[1], sock=sb, fromaddr=('10.0.0.1', 40000 + idx))
+                ha.start()
+                hb.start()
+                pairs.append((kind, ha, hb, sa, sb))
+
+            def pump(only=None, limit=3000):
+                for _ in range(limit):
+                    progress = False
+                    for src in list(GLib.CTX.sources.values()):
+                        own = src.owner
+                        if only is not None and own not in only:
+                            continue
+                        if src.sid not in GLib.CTX.sources:
+                            continue
+                        if src.kind == 'idle':
+                            if src.name == '_process_queue' and not getattr(own, '_in_sess', True):
+                                continue
+                            GLib.CTX.run(src)
+                            progress = True
+                        elif src.kind == 'io' and src.cond == GLib.IO_IN and src.sock is not None and not src.sock.closed \
+                                and (src.sock.inbox or src.sock.eof):
+                            GLib.CTX.run(src)
+                            progress = True
+                        elif src.kind == 'io' and src.cond == GLib.IO_OUT and (
+                                getattr(own, '_Messenger__tx_buf', b'') or getattr(own, '_Connection__tx_buf', b'')):
+                            GLib.CTX.run(src)
+                            progress = True
+                    if not progress:
+                        break
+
+            established = [own for (kind, ha, hb, sa, sb) in pairs if kind == 'E' for own in (ha, hb)]
+            pump(only=set(established))
+            try:
+                getattr(agents[0], action)()
+            except Exception as err:
+                fails.append(('C09 / Agent.%s raised' % action, '%s: %s %s' % (''.join(pattern), err.__class__.__name__, err)))
+            pump()
+            ncases += 1
+            tag = '%s/%s' % (''.join(pattern), action)
+            for (idx, (kind, ha, hb, sa, sb)) in enumerate(pairs):
+                if not sa.closed:
+                    fails.append(('C09 / Agent.%s left a session open' % action,
+                                  'contacts %s: contact #%d (%s) still open' % (''.join(pattern), idx, kind)))
+                if not sb.closed:
+                    fails.append(('C09 / Agent.%s left the peer of a session half-open' % action,
+                                  'contacts %s: contact #%d (%s)' % (''.join(pattern), idx, kind)))
+                if action == 'shutdown' and kind == 'E':
+                    fa = [f for f in TS.decode_stream(bytes(sa.sent))[0] if f['t'] == 'term']
+                    fb = [f for f in TS.decode_stream(bytes(sb.sent))[0] if f['t'] == 'term']
+                    if len(fa) != 1 or fa[0]['flags'] & 1 or len(fb) != 1 or not fb[0]['flags'] & 1:
+                        fails.append(('C09 / graceful shutdown without exactly one SESS_TERM and one reply',
+                                      'contacts %s: contact #%d A %s B %s' % (''.join(pattern), idx, fa, fb)))
+            if not stopped and action == 'shutdown' and all(sa.closed for (_k, _a, _b, sa, _sb) in pairs):
+                fails.append(('C09 / agent does not stop after its last session closed', tag))
+            chk.count('agent_level_pattern', ''.join(pattern))
+            chk.case(ident=('agent-level', tag), nontrivial=(len(pattern) >= 2), sample=dict(agent_level=tag))
+    return fails
+
+
 def build(chk):
     recs = []
     positions = list(range(0, 40, 3)) if chk.quick() else list(range(0, 80))
@@ -77,6 +169,8 @@ def build(chk):
 
 
 def evaluate(chk, recs):
+    for (sig, what) in agent_level(chk):
+        chk.fail(sig, what, dict(kind='agent-level', what=what))
     for rec in recs:
         terms = sum(1 for e in 'AB' for f in TS.decode_stream(rec.wire[e])[0] if f['t'] == 'term')
         chk.count('sess_term_frames', terms)
